@@ -170,7 +170,21 @@ bool StepScript(InterpreterEnv& env)
             if (pc == env.script.begin()) btc_logf("note: the script contains an OP_SUCCESSx opcode: it succeeds unconditionally and its operations are not executed\n");
             stepped = env.script.GetOp(pc, opcode, vchPushValue) || set_error(env.serror, SCRIPT_ERR_BAD_OPCODE);
         } else {
-            stepped = StepScript(env, pc);
+            // a step can also fail by throwing (script number too long or not minimal): the history entry of
+            // a failed step must go in either case, or a later rewind undoes a step that was never made
+            try {
+                stepped = StepScript(env, pc);
+            } catch (...) {
+                env.stack_history.pop_back();
+                env.altstack_history.pop_back();
+                env.pc_history.pop_back();
+                env.nOpCount_history.pop_back();
+                env.vfExec_history.pop_back();
+                env.pbegincodehash_history.pop_back();
+                env.execdata_history.pop_back();
+                env.opcode_pos_history.pop_back();
+                throw;
+            }
         }
         if (!stepped) {
             // undo above pushes
